@@ -575,6 +575,14 @@ func (e *Env) evalAddr(x ast.Expr) (ref string, t types.Type, ghostSort string) 
 			if a := e.localAlloc(n.Name); a != nil {
 				return e.st.vals[a].S, derefType(a.Type()), ""
 			}
+			// a variable captured by a closure: the free variable IS its address
+			for _, fv := range e.fn.FreeVars {
+				if fv.Name() == n.Name {
+					if v, ok := e.st.vals[fv]; ok && derefType(fv.Type()) != nil {
+						return v.S, derefType(fv.Type()), ""
+					}
+				}
+			}
 		}
 		e.fail("cannot take address of %s", n.Name)
 		return "null", nil, ""
